@@ -84,7 +84,7 @@ pub fn gen(r: &mut Rng, tier: &str, i: usize, stats: &mut BTreeMap<String, u64>)
                     0 => {
                         chars.remove(p);
                     }
-                    1 => chars.insert(p, *r.pick(&['(', ')', ',', '{', '}', '+', 'é', '\u{0}', '\t', '😀', '.', '1', 's', ' '])),
+                    1 => chars.insert(p, *r.pick(&['(', ')', ',', '{', '}', '+', 'é', '\u{0}', '\t', '😀', '.', '1', 's', ' ', '²', '½', '٣', '１', 'Ⅷ'])),
                     2 => {
                         let c = chars[p];
                         chars.insert(p, c);
